@@ -4,6 +4,7 @@ import (
 	"encoding/base64"
 	"errors"
 	"fmt"
+	"io"
 	"math/rand"
 	"net/http"
 	"net/http/httptest"
@@ -23,7 +24,8 @@ var errC13 = errors.New("c13: validator failure")
 func genC13(rng *rand.Rand, n int, emit func(Case), dist map[string]int) {
 	creds := []string{"joe:secret", "joe:wrong:secret", "joe:wrong", ":secret", "joe:", "nocolon", "", "jo\xffe:secret", "boom:x", "boomok:x", "a:b:c:secret", "joe:secret:", "ann:pw1", "ann:secret"}
 	keys := []string{"valid-key", "other-key", "boom", "boomok", "", "Valid-Key", "valid-key ", "k2"}
-	lookups := []string{"header:Authorization", "header:X-Api-Key", "query:key", "form:key", "cookie:key", "header:Authorization,query:key", "query:key,cookie:key", "header:X-Api-Key:Token ", "form:key,header:Authorization", "param:key", "param:key,query:key", "header:Authorization:Token ", "header:Authorization:ApiKey "}
+	lookups := []string{"header:Authorization", "header:X-Api-Key", "query:key", "form:key", "cookie:key", "header:Authorization,query:key", "query:key,cookie:key", "header:X-Api-Key:Token ", "form:key,header:Authorization", "param:key", "param:key,query:key", "header:Authorization:Token ", "header:Authorization:ApiKey ",
+		"header:Authorization,header:X-Api-Key", "header:X-Api-Key:Token ,header:X-Other", "header:X-Other,header:Authorization", "cookie:key,header:X-Api-Key:Key ,header:X-Other"}
 	e := echo.New()
 	for it := 0; it < n; {
 		vmode := rng.Intn(3)
@@ -48,6 +50,37 @@ func genC13(rng *rand.Rand, n int, emit func(Case), dist map[string]int) {
 			bcalls = append(bcalls, [2]string{u, p})
 			return bval(u, p)
 		})(func(c echo.Context) error { ranB = true; return nil })
+		if rng.Intn(4) == 0 {
+			// the same BasicAuth instance used as ROUTE-LEVEL middleware of a group route, on a server whose group got its
+			// middleware in several separate Use calls and which registers further routes (with other route-level
+			// middleware) afterwards and between requests
+			em := echo.New()
+			em.Logger.SetOutput(io.Discard)
+			var served error
+			em.HTTPErrorHandler = func(err error, c echo.Context) { served = err }
+			g := em.Group("/api")
+			pass := func(next echo.HandlerFunc) echo.HandlerFunc { return func(c echo.Context) error { return next(c) } }
+			for u := 1 + rng.Intn(4); u > 0; u-- {
+				g.Use(pass)
+			}
+			g.GET("/private", func(c echo.Context) error { ranB = true; return nil }, middleware.BasicAuth(func(u, p string, c echo.Context) (bool, error) {
+				bcalls = append(bcalls, [2]string{u, p})
+				return bval(u, p)
+			}))
+			nextPublic := 0
+			bmw = func(c echo.Context) error {
+				if nextPublic < 3 && rng.Intn(2) == 0 {
+					nextPublic++
+					g.GET(fmt.Sprintf("/public%d", nextPublic), func(c echo.Context) error { return nil }, pass)
+				}
+				served = nil
+				r := c.Request().Clone(c.Request().Context())
+				r.URL.Path = "/api/private"
+				em.ServeHTTP(httptest.NewRecorder(), r)
+				return served
+			}
+			dist["basicauth_as_route_middleware_of_group"]++
+		}
 		kval := func(k string) (bool, error) {
 			if k == "boom" {
 				return false, errC13
@@ -266,6 +299,13 @@ func genC13(rng *rand.Rand, n int, emit func(Case), dist map[string]int) {
 						form.Add(parts[1], v)
 						method = http.MethodPost
 					case "cookie":
+						if k == 0 && rng.Intn(8) == 0 {
+							// a browser that sends many unrelated cookies in front of the key cookie
+							for u := 15 + rng.Intn(12); u > 0; u-- {
+								cookies = append(cookies, &http.Cookie{Name: fmt.Sprintf("c%d", u), Value: "x"})
+							}
+							dist["keyauth_many_unrelated_cookies"]++
+						}
 						nm := parts[1]
 						if rng.Intn(4) == 0 {
 							nm = "other"
